@@ -31,7 +31,7 @@ class SubstanceGet(Harness):
     def __init__(self, scaled, op='mul'):
         self.scaled = scaled
         self.op = op
-        self.name = 'substance.get' + (('.scaled' if op == 'mul' else '.divided') if scaled else '')
+        self.name = 'substance.get' + (({'mul': '.scaled', 'div': '.divided', 'mulunit': '.times_quantity'}[op]) if scaled else '')
         self.entry_name = 'Substance::get' + (' ; <&Substance as Mul<&Number>>::mul ; Substance::get' if scaled else '')
         self.describe = ('property lookup on an arbitrary amount of a substance with two properties (arbitrary non-zero input/output '
                          'Numbers, symbolic units)' + ('; then the same lookup on the substance multiplied by an arbitrary dimensionless k' if scaled else ''))
@@ -56,7 +56,11 @@ class SubstanceGet(Harness):
         q = self.QUERIES[ex.choose(len(self.QUERIES), 'queried name')]
         s = substance(ex, number(rational(a), DA), 'stuff', props)
         k = I.real('k') if self.scaled else None
-        return [s, q], {'a': a, 'entA': entA, 'meta': meta, 'q': q, 'k': k}
+        DK, entK = (None, None)
+        if self.op == 'mulunit':
+            # the multiplier is a quantity of its own (any unit), the amount may already be a number or a quantity
+            DK, entK = sym_dim(ex, I, 'dk', U, lo=-3, hi=3)
+        return [s, q], {'a': a, 'entA': entA, 'meta': meta, 'q': q, 'k': k, 'DK': DK, 'entK': entK}
 
     def entry(self, ex, args, ctx):
         s, q = args
@@ -69,7 +73,7 @@ class SubstanceGet(Harness):
             kn = number(rational(1 / zreal(ctx['k'])), dim({}))
             s2 = ex.call(None, '<&runtime::substance::Substance as std::ops::Div<&types::number::Number>>::div', [ref(s), ref(kn)])
         else:
-            kn = number(rational(ctx['k']), dim({}))
+            kn = number(rational(ctx['k']), ctx['DK'] if self.op == 'mulunit' else dim({}))
             s2 = ex.call(None, '<&runtime::substance::Substance as std::ops::Mul<&types::number::Number>>::mul', [ref(s), ref(kn)])
         s2v = deref_all(s2)
         if s2v.variant != 0:
@@ -154,9 +158,17 @@ class SubstanceGet(Harness):
         obs = [('substance * number never fails', s2.variant == 0)]
         if s2.variant != 0:
             return obs
-        amt, _ = number_parts(deref_all(s2.fields[0]).fields[0])
+        amt, amt_d = number_parts(deref_all(s2.fields[0]).fields[0])
         obs.append(('(s * k).amount = s.amount * k', zreal(numeric_parts(amt)[1]) == a * k))
         r2 = deref_all(r2o.fields[0])
+        if self.op == 'mulunit':
+            entAK = {}
+            for u in U:
+                e = zint(eff_exp(entA, u)) + zint(eff_exp(ctx['entK'], u))
+                entAK[u] = (e != 0, e)
+                obs.append(('(s * k).amount unit[%s] = amount + multiplier' % u, zint(eff_exp(amt_d, u)) == e))
+            obs += self.check_one(ctx, r2, a * k, entAK, 'times a quantity: ')
+            return obs
         obs += self.check_one(ctx, r2, a * k, entA, 'scaled: ')
         if is_ok(r1) and is_ok(r2):
             v1 = zreal(numeric_parts(number_parts(payload(r1))[0])[1])
@@ -193,6 +205,8 @@ class SubstanceGet(Harness):
             if self.op == 'div':
                 kd = 1 / k
                 req['kdiv'] = '%d/%d' % (kd.numerator, kd.denominator)
+            elif self.op == 'mulunit':
+                req['knum'] = {'value': '%d/%d' % (k.numerator, k.denominator), 'unit': self._dims(inputs, 'dk')}
             else:
                 req['k'] = '%d/%d' % (k.numerator, k.denominator)
         return [req]
@@ -206,6 +220,10 @@ class SubstanceGet(Harness):
         q = inputs['q']
         amt = Fraction(inputs['a']) * (Fraction(inputs.get('k', 1)) if self.scaled else 1)
         dA = self._dims(inputs, 'da')
+        if self.op == 'mulunit':
+            dK = self._dims(inputs, 'dk')
+            dA = {u: dA.get(u, 0) + dK.get(u, 0) for u in U}
+            dA = {u: e for u, e in dA.items() if e}
         got_amt = Fraction(o['amount']['value'])
         if got_amt != amt or {k: int(v) for k, v in o['amount']['unit'].items()} != dA:
             return True, 'amount of the (scaled) substance is %s, expected %s %s' % (o['amount'], amt, dA)
@@ -399,7 +417,7 @@ class FormulaSum(Harness):
 
 
 def harnesses(tier):
-    hs = [SubstanceGet(False), SubstanceGet(True), SubstanceGet(True, op='div'), Formula(11), FormulaSum(['H', 'H'], 10), FormulaSum(['H', 'O', 'H'], 3 if tier == 'quick' else 10)]
+    hs = [SubstanceGet(False), SubstanceGet(True), SubstanceGet(True, op='div'), SubstanceGet(True, op='mulunit'), Formula(11), FormulaSum(['H', 'H'], 10), FormulaSum(['H', 'O', 'H'], 3 if tier == 'quick' else 10)]
     if tier == 'thorough':
         hs += [FormulaSum(['H', 'O', 'H', 'O'], 10), FormulaSum(['O', 'H', 'O', 'H', 'O', 'H'], 4)]
     return hs
@@ -551,6 +569,103 @@ def harnesses(tier):   # noqa: F811
 
 # --------------------------------------------------------------------------------------------------------------
 # substance + substance (mixtures): never a panic; the shared molar property is the amount-weighted sum.
+
+class GetInUnitConst(GetInUnit):
+    """the other kind of property: a constant one (dimensionless input, e.g. `mass_shelled` of an egg), which scales with a
+    dimensionless amount: `3 egg -> g` shows three times the mass of one"""
+    name = 'substance.get_in_unit.constant_property'
+    describe = ('`k substance -> c unit` for a substance with one constant property (dimensionless non-zero input, arbitrary output) and an '
+                'arbitrary dimensionless amount k: the shown numeral, times the printed factor / divisor, times the named unit, is k * output / input')
+    bounds = ['one property; dimensionless amount; output in kg']
+
+    def build(self, ex, I):
+        a, iv, ov, c, uval = I.real('a'), I.real('in'), I.real('out'), I.real('c'), I.real('u')
+        ex.assume(z3.And(iv != 0, ov != 0, c > 0, uval > 0, a != 0))
+        props = {'mass_each': prop_struct(ex, number(rational(iv), dim({})), 'count', number(rational(ov), dim({'kg': (True, 1)})), 'mass')}
+        s = substance(ex, number(rational(a), dim({})), 'stuff', props)
+        unit = number(rational(c * uval), dim({'kg': (True, 1)}))
+        names = MapV()
+        names.ent['u'] = ['u', True, 1]
+        reg = make_struct(ex, 'Registry', {})
+        ctxv = make_struct(ex, 'Context', {'registry': reg, 'temporaries': MapV(), 'previous_result': none(ex)})
+        return [ref(s), unit, ref(ctxv), names, rational(c), 10, variant(ex, 'Digits', 'Default')], {'a': a, 'iv': iv, 'ov': ov, 'c': c, 'u': uval}
+
+    def post(self, ex, ctx, outcome):
+        r = deref_all(outcome[1])
+        if not is_ok(r):
+            return [('a constant property converts to a unit of its output', False)]
+        rep = deref_all(payload(r))
+        props = deref_all(rep.fields[ex.prog.src.structs['SubstanceReply'].index('properties')])
+        if len(props.fields) != 1:
+            return [('exactly the one matching property is listed (got %d)' % len(props.fields), False)]
+        pr = deref_all(props.fields[0])
+        parts = deref_all(pr.fields[ex.prog.src.structs['PropertyReply'].index('value')])
+        f = ex.prog.src.structs['NumberParts']
+        raw = deref_all(parts.fields[f.index('raw_value')])
+        if raw.variant == 0:
+            return [('the property carries a value', False)]
+        val, d = number_parts(raw.fields[0])
+        kind, x = numeric_parts(val)
+        ru = deref_all(parts.fields[f.index('raw_unit')])
+        names = sorted(dim_entries(ru.fields[0])) if ru.variant == 1 else None
+
+        def intval(opt):
+            opt = deref_all(opt)
+            if opt.variant == 0:
+                return z3.IntVal(1)
+            t = deref_all(opt.fields[0])
+            if isinstance(t, str) and t.isdigit():
+                return z3.IntVal(int(t))
+            if isinstance(t, Opaque) and isinstance(t.info, tuple) and t.info[0] == 'pieces' and len(t.info[1]) == 1 and isinstance(t.info[1][0], tuple):
+                return zint(deref_all(t.info[1][0][1]))
+            return None
+        fv, dv = intval(parts.fields[f.index('factor')]), intval(parts.fields[f.index('divfactor')])
+        if fv is None or dv is None or kind != 'rational':
+            return [('numeral, factor and divisor are readable', False)]
+        a, iv, ov, c, u = (zreal(ctx[k]) for k in ('a', 'iv', 'ov', 'c', 'u'))
+        return [('the shown unit is the target unit (%s)' % names, names == ['u']),
+                ('numeral * printed constant * unit = amount * output / input',
+                 z3.Implies(dv != 0, zreal(x) * z3.ToReal(fv) * u * iv == a * ov * z3.ToReal(dv)))]
+
+    def prefer(self, ctx):
+        return [ctx['a'] == 3, ctx['c'] == 1, ctx['u'] == 1, ctx['iv'] == 1, ctx['ov'] == 1]
+
+    def native(self, inputs, label):
+        return [{'mode': 'query', 'text': t} for t in ('3 egg -> g', '12 egg -> 2 g', 'egg / 2 -> g', 'egg -> g', 'mass_shelled of egg')]
+
+    def judge(self, inputs, label, obs):
+        bad = []
+        one = obs_number_json(obs[-1])
+        if one is None:
+            return False, 'reference query failed'
+        worth = {'gram': Fraction(1, 1000), 'kilogram': Fraction(1)}
+        for (t, k), o in zip((('3 egg -> g', 3), ('12 egg -> 2 g', 12), ('egg / 2 -> g', Fraction(1, 2)), ('egg -> g', 1)), obs):
+            if o.get('outcome') == 'panic' or o.get('render_panic'):
+                bad.append('`%s` panics' % t)
+                continue
+            for p in ((o.get('json') or {}).get('properties') or []):
+                if p.get('name') != 'mass_shelled':
+                    continue
+                v = p.get('value') or {}
+                rv = (v.get('rawValue') or {})
+                num = rv.get('value') or {}
+                try:
+                    x = Fraction(int(num['numer']), int(num['denom'])) * Fraction(v.get('factor') or 1) / Fraction(v.get('divfactor') or 1)
+                    for name, e in (v.get('rawUnit') or {}).items():
+                        x *= worth[name] ** int(e)
+                except (KeyError, ValueError, TypeError, ZeroDivisionError):
+                    continue
+                if x != k * one[0]:
+                    bad.append('`%s` shows mass_shelled = %s kg, %s eggs weigh %s kg' % (t, x, k, k * one[0]))
+        return bool(bad), '; '.join(bad[:2]) or 'constant properties scale with the amount'
+
+
+_c16_prev_const = harnesses
+
+
+def harnesses(tier):   # noqa: F811
+    return _c16_prev_const(tier) + [GetInUnitConst()]
+
 
 class SubstanceAdd(Harness):
     name = 'substance.add'
